@@ -221,6 +221,29 @@ Proof.
     apply in_app_or in X. destruct X as [X|[X|[]]]; [now apply (Hn u)|discriminate].
 Qed.
 
+(* a function bound by name at import (tensorly.context, tensorly.tensor, ...; `from tensorly.tenalg import outer` in a
+   library module) is the closure for ever: through that binding the call follows the caller in EVERY history,
+   use_static_dispatch included - no side condition on the history *)
+Theorem top_binding_always_dynamic own0 h1 t n h2 :
+  top_bound nc n = true -> is_fun nc n = true ->
+  let d := dinit nc own0 in
+  nth (length h1) (dtrace d (h1 ++ DCall t RTop n :: h2)) DNone
+  = DRan (view (own0 t) (Named 0) (events R c (init own0) (sel_ops h1)) t).
+Proof.
+  intros T F d. rewrite dtrace_nth. unfold BackendDispatch.dout. cbn [dstep snd]. unfold BackendDispatch.eval.
+  rewrite d_top_run. simpl. rewrite T, F. simpl. now rewrite d_sel_run, view_correct.
+Qed.
+
+(* get_backend() names the object a dispatched function runs on: Query and a dispatched call through any route, issued
+   by the same thread in the same state, agree *)
+Theorem dispatch_query_consistent d t r n :
+  dyn_ok nc d -> is_fun nc n = true ->
+  exists b, dout d (DCall t r n) = DRan b /\ dout d (DSel (Query t)) = DSelObs (OName (name_of c b)) /\
+            dout d (DSel (Dispatch t)) = DSelObs (OInst b).
+Proof.
+  intros H F. exists (cur (d_sel d) t). split; [now apply dispatch_routes_agree|]. split; reflexivity.
+Qed.
+
 (* ------------------------------------------------------------ attributes *)
 
 Lemma attr_route_dyn d t n : dyn_ok nc d -> is_fun nc n = false -> is_attr nc n = true ->
@@ -370,6 +393,21 @@ Proof.
 Qed.
 
 End Mixed.
+
+(* a tensor-algebra function is itself dispatched (on tensorly.tenalg's manager) and its body calls dispatched
+   functions of tensorly.backend's manager: in thread t it is executed by t's tenalg view and computes on t's
+   backend view, each determined by the operations on ITS manager alone *)
+Definition composite (s : st2) (t : tid) : inst * inst := (cur (s_ta s) t, cur (s_bk s) t).
+
+Theorem composite_view (R : rules) (cb ct : cfg) (h : list mop) (s : st2) (t : tid) :
+  composite (run2 R cb ct s h) t
+  = (view (tls (s_ta s) t) (shared (s_ta s)) (events R ct (s_ta s) (proj true h)) t,
+     view (tls (s_bk s) t) (shared (s_bk s)) (events R cb (s_bk s) (proj false h)) t).
+Proof.
+  unfold composite. f_equal.
+  - exact (managers_independent R cb ct true h s t).
+  - exact (managers_independent R cb ct false h s t).
+Qed.
 
 (* ------------------------------------------------------------ non-vacuity *)
 (* names: 0 context (function, bound at import), 1 trace (function, reached through __getattr__),
